@@ -5,8 +5,11 @@ run:    Expr.__call__ -> _eval -> the real `evaluate` methods of every node type
         symbols for derivative requests
 oracle: per explored path: path condition => returned term == [[e]] (vlib.denote, conditionals as ite); paths are
         explored by negating recorded branch conditions and asking z3 for inputs (<= 12 paths per expression)
-cut:    math.* / cmath.* calls concretise through float(): expressions whose evaluation reaches them are recorded as
-        outside the claim (status rejected, reason 'concretised'); their derivative rules are C02/C03's subject
+stub:   ufl.mathfunctions.math is replaced by vlib.symval.MathStub: math.f(symbolic) returns the uninterpreted f the
+        denotation uses (assumption: the C function computes f); domain errors are raised as the C function raises them
+cut:    Bessel functions (scipy is not installed in the repository's environment: evaluate raises by design) and
+        complex values (cmath) are outside the claim; anything else that concretises through float()/complex() is
+        recorded as rejected
 """
 
 from __future__ import annotations
@@ -22,7 +25,7 @@ from ufl import (as_matrix, as_tensor, as_vector, conditional, div, dot, eq, ge,
                  min_value, ne, outer, tr)
 
 from checks.common import coef, mesh
-from vlib import harness, ring, solve, symval
+from vlib import harness, lemmas, ring, solve, symval
 from vlib import terms as tm
 from vlib.denote import Denoter, Env, float_literal
 from vlib.harness import outcome
@@ -69,8 +72,14 @@ def exprs(W):
         "cond_div_guard2": (conditional(lt(abs(f), 1), g, g / f), ()),
         "min_max_div": (min_value(1 / (f * f + 1), g) / max_value(h * h, 1), ()),
         "ct_nested": (as_tensor(as_tensor(A[i, j] * v[k], (i, j, k))[k, j, i] * w[j], (i, k)), (1, 0)),
-        # reach math.*: recorded as outside the claim
+        # math.* is stubbed (vlib.symval.MathStub): structure around the C calls is what is checked
         "math_sin": (ufl.sin(f) * g, ()), "math_sqrt": (ufl.sqrt(f * f + 1), ()), "math_exp_cond": (conditional(lt(f, g), ufl.exp(f), g), ()),
+        "math_all": (ufl.cos(f) + ufl.tan(g) + ufl.cosh(f) * ufl.sinh(g) + ufl.tanh(h) + ufl.atan(f) + ufl.erf(g) + ufl.exp(-h), ()),
+        "math_partial": (ufl.ln(f * f + 1) + ufl.acos(f / (1 + abs(f))) + ufl.asin(g / (1 + abs(g))), ()),
+        "math_atan2": (ufl.atan2(f, g) - ufl.atan2(g, f), ()), "math_pow_sym": ((f * f + 1) ** g, ()),
+        "math_guard_ln": (conditional(gt(f, 0), ufl.ln(f), 0), ()), "math_guard_sqrt": (conditional(ge(f, 0), ufl.sqrt(f), ufl.sqrt(-f)), ()),
+        "grad_math": (grad(ufl.sin(f) * ufl.exp(g))[0], ()), "grad_sqrt": (grad(ufl.sqrt(f * f + 1))[1], ()),
+        "grad_guard_sqrt": (grad(conditional(gt(f, 0), ufl.sqrt(f), 0))[0], ()),
     }
     return E
 
@@ -112,23 +121,44 @@ class Shadows:
     def __init__(self, fixed, seed):
         self.v = dict(fixed)
         self.rng = random.Random(seed)
+        self.small = False
 
     def __call__(self, name):
         if name not in self.v:
-            self.v[name] = Fraction(self.rng.choice([-1, 1]) * self.rng.randint(1, 9), self.rng.choice([1, 1, 2, 3]))
+            den = self.rng.choice([1, 1, 2, 3]) if self.small is False else self.rng.choice([10, 11, 13])
+            self.v[name] = Fraction(self.rng.choice([-1, 1]) * self.rng.randint(1, 9), den)
         return self.v[name]
+
+
+def install_stub():
+    import ufl.mathfunctions as mf
+
+    if not isinstance(mf.math, symval.MathStub):
+        mf.math = symval.MathStub()
+
+
+def terminals_of(e):
+    from ufl.algorithms.analysis import extract_type
+
+    cs = sorted(extract_type(e, C.Coefficient), key=lambda t: t.count())
+    ks = sorted(extract_type(e, C.Constant), key=lambda t: t.count())
+    xs = list(extract_type(e, C.SpatialCoordinate))
+    return cs, ks, xs
 
 
 def implementation(e, comp, W, sh):
     """The real evaluation on SymVals.  Returns (SymVal | Exception, run)."""
     jets = Jets(sh)
     mapping = {}
-    for t in (W[k] for k in TERMINALS):
+    cs, ks, _ = terminals_of(e)
+    for t in cs:
         def fn(x, derivatives=(), t=t):
             return nested(t.ufl_shape, lambda cc: jets.get(t, cc, derivatives))
 
         mapping[t] = fn
-    mapping[W["c"]] = jets.get(W["c"], (), ())
+    for k in ks:
+        mapping[k] = nested(k.ufl_shape, lambda cc: jets.get(k, cc, ()))
+    install_stub()
     run_ = symval.new_run()
     try:
         r = e(POINT, mapping, component=comp)
@@ -142,11 +172,12 @@ def oracle(e, comp, W, sh):
     returns (value, [(condition term, outcome)], definedness terms)."""
     jets = Jets(sh)
     env = Env()
-    for t in [W[k] for k in TERMINALS] + [W["c"]]:
+    cs, ks, xs = terminals_of(e)
+    for t in cs + ks:
         env.arg_override[t] = (lambda t: lambda cc, derivs, side: jets.get(t, cc, tuple(i for _, i in derivs)).t)(t)
-    x = ufl.SpatialCoordinate(W["dom"])
-    env.arg_override[x] = lambda cc, derivs, side: Frac(tm.const((Fraction(POINT[cc[0]]) if not derivs else
-                                                                  (1 if len(derivs) == 1 and derivs[0][1] == cc[0] else 0))))
+    for x in xs:
+            env.arg_override[x] = lambda cc, derivs, side: Frac(tm.const((Fraction(POINT[cc[0]]) if not derivs else
+                                                                      (1 if len(derivs) == 1 and derivs[0][1] == cc[0] else 0))))
     opath = []
 
     def chooser(c):
@@ -162,45 +193,73 @@ def oracle(e, comp, W, sh):
     return want, opath, list(ring.ST.nonzero)[n0:]
 
 
+def value_roots(v):
+    """Terms whose concrete evaluation must succeed for the value to be defined (function domains)."""
+    v = ring.primal(v)
+    return [v.n] if isinstance(v, Frac) else []
+
+
 def concrete(roots, sh):
-    allroots, frontier = list(roots), list(roots)
-    while frontier:  # radical symbols depend on the variables of their radicands
-        nxt = [ring.ST.rad_by_name[n][1] for n, _ in tm.variables(frontier) if n in ring.ST.rad_by_name]
-        frontier = [t for t in nxt if all(t is not u for u in allroots)]
-        allroots += frontier
-    base = {n: sh(n) for n, _ in tm.variables(allroots) if not n.startswith(("rad!", "q!", "const!"))}
-    env = solve.complete_env(base, roots)
+    env = solve.complete_env({}, roots, fill=sh)
     if env is None:
         return None
     try:
         return tm.evaluate(roots, env, solve.UF_FLOAT)
-    except (ZeroDivisionError, ValueError, KeyError):
+    except (ZeroDivisionError, ValueError, OverflowError):
         return None
+    except KeyError as ex:
+        raise DenotationError(f"no concrete implementation of {ex}")
+
+
+def pool_expr(spec):
+    from checks.exprpool import Pool
+
+    P = Pool("triangle", 2, base=1420)
+    f = {"s": P.scalars, "v": P.vectors, "t": P.tensors}[spec["kind"]]()[spec["key"]]
+    op = spec["op"]
+    r = len(f.ufl_shape)
+    if op == "value":
+        return f, (1,) * r if r < 2 else (0, 1)
+    if op == "grad":
+        return grad(f), ((1,) * r if r < 2 else (0, 1)) + (0,)
+    if op == "div":
+        return (div(f), (1,) * (r - 1)) if r >= 1 else (None, None)
+    if op == "hess":
+        return (grad(grad(f)), (0, 1)) if r == 0 else (None, None)
+    raise KeyError(op)
 
 
 def run(spec):
     name = spec["name"]
     W = world()
-    e, comp = exprs(W)[spec["key"]]
-    sample = f"{spec['key']}: ({str(e)[:150]})[{comp}] evaluated on symbolic terminal values at x={POINT}"
+    if spec.get("family") == "pool":
+        e, comp = pool_expr(spec)
+        if e is None:
+            return outcome(name, "rejected", detail="operator not applicable")
+    else:
+        e, comp = exprs(W)[spec["key"]]
+    sample = f"{spec.get('family', 'c24')}/{spec['key']}: ({str(e)[:150]})[{comp}] evaluated on symbolic terminal values at x={POINT}"
     todo = [({}, 0)]
     seen, explored, skipped = set(), [], 0
+    twin_results = []
     stage = None
     runs = 0
     while todo and len(explored) < MAX_PATHS and runs < 4 * MAX_PATHS:
         fixed, attempt = todo.pop(0)
         runs += 1
         ring.reset()
-        sh = Shadows(fixed, seed=hash((spec["key"], attempt)) & 0xFFFF if False else attempt * 7919 + len(spec["key"]))
+        sh = Shadows(fixed, seed=attempt * 7919 + len(spec["key"]))
+        sh.small = attempt % 2 == 1  # alternate: values spread over (-9, 9) / values inside (-1, 1)
+        r, run_ = implementation(e, comp, W, sh)
+        if run_.tainted:
+            return outcome(name, "rejected", detail=f"concretised: {run_.taint_where} (outside the C24 claim)", sample=sample)
         try:
             want, opath, onz = oracle(e, comp, W, sh)
         except DenotationError as ex:
             return outcome(name, "inconclusive", detail=f"denotation: {ex}", sample=sample)
-        nzv = concrete(onz, sh) if onz else []
-        defined = nzv is not None and all(v != 0 for v in nzv)
-        r, run_ = implementation(e, comp, W, sh)
-        if run_.tainted:
-            return outcome(name, "rejected", detail=f"concretised: {run_.taint_where} (outside the C24 claim)", sample=sample)
+        dom = list(ring.ST.domain)
+        vals = concrete(onz + dom + value_roots(want), sh)
+        defined = vals is not None and all(v != 0 for v in vals[: len(onz)]) and all(vals[len(onz): len(onz) + len(dom)])
         sig = tuple(o for _, o in run_.path)
         pc = [(t if o else tm.not_(t)) for t, o in run_.path]
         point = {k: str(v) for k, v in sorted(sh.v.items())}
@@ -231,8 +290,17 @@ def run(spec):
             if ri.status != "proved":
                 return outcome(name, "inconclusive", detail=f"branch agreement on path {list(sig)}: {ri.detail}", sample=sample)
         # (ii) the returned term equals the mathematical value on this path
-        rr = solve.prove_all_zero(solve.flatten_diffs([(want, got)]), assumptions=pc, timeout=60, label=name)
+        diffs = solve.flatten_diffs([(want, got)])
+        li, lnames = lemmas.instances(diffs)
+        rr = solve.prove_all_zero(diffs, pc, 60, li, label=name)
         stage = rr.stage
+        if rr.status == "proved":
+            ok, bad = solve.discharge_lemmas(60)
+            if bad:
+                return outcome(name, "inconclusive", detail=f"{bad} normaliser identification lemma(s) not discharged", sample=sample)
+        if spec.get("twin") and rr.status == "proved" and not explored:
+            rt = solve.prove_all_zero(solve.flatten_diffs([(want + Frac(tm.const(1)), got)]), assumptions=pc, timeout=60, label=name + "#twin")
+            twin_results.append(outcome(name + "#twin", rt.status, twin=True, detail="returned value + 1 must differ from the denotation"))
         if rr.status == "violated":
             return outcome(name, "violated", detail=f"returned value differs from the mathematical value on path {list(sig)}",
                            witness=rr.witness, sample=sample, stage=stage)
@@ -255,16 +323,28 @@ def run(spec):
                 todo.append((new, 0))
     if not explored:
         return outcome(name, "inconclusive", detail=f"no defined sample point found ({skipped} skipped)", sample=sample)
-    return outcome(name, "proved", stage=stage, sample=sample, paths_explored=len(explored), undefined_points_skipped=skipped,
-                   path_signatures=[list(map(int, s)) for s in explored][:6])
+    return [outcome(name, "proved", stage=stage, sample=sample, paths_explored=len(explored), undefined_points_skipped=skipped,
+                    path_signatures=[list(map(int, s)) for s in explored][:6])] + twin_results
 
 
 MAX_PATHS = 12
 
 
 def specs(tier):
+    from checks.exprpool import Pool
+
     W = world()
-    return [dict(name=k, key=k) for k in exprs(W)]
+    S = [dict(name=k, key=k, twin=(k in ("poly", "cond1", "index_sum", "grad_product", "math_sin"))) for k in exprs(W)]
+    P = Pool("triangle", 2, base=1420)
+    for kind, pool in (("s", P.scalars()), ("v", P.vectors()), ("t", P.tensors())):
+        for key in pool:
+            if key.startswith("bessel"):
+                continue
+            for op in ("value", "grad", "div") + (("hess",) if tier == "thorough" else ()):
+                if op == "div" and kind == "s":
+                    continue
+                S.append(dict(name=f"pool/{kind}/{key}/{op}", family="pool", kind=kind, key=key, op=op))
+    return S
 
 
 def main():
@@ -278,9 +358,11 @@ def main():
                    "condition types, MinValue/MaxValue, Indexed, IndexSum, ComponentTensor, ListTensor, Grad, Variable, "
                    "tensor algebra nodes, Terminal (mapped values / callables)", "ufl.algorithms.expand_derivatives (as called by _eval)"],
         bounds={"expressions": len(exprs(world())), "paths per expression": "<= 12 (DART: negate recorded branch conditions)",
-                "outside": "math.*/cmath.* functions inside evaluate (float() concretisation): recorded as rejected; "
-                           "SpatialCoordinate (evaluated through float())"},
+                "outside": "Bessel functions (scipy absent: evaluate raises by design) and complex values (cmath); "
+                           "anything concretised through float()/complex() is recorded as rejected; the evaluation point x is concrete (SpatialCoordinate "
+                           "evaluates through float()); accuracy of the C math functions"},
         assumptions=["terminal values and derivative requests are independent symbols shared with the oracle",
+                     "stub: math.<f> called on a symbolic number returns the uninterpreted <f> (vlib.symval.MathStub)",
                      "a raise where the mathematical value is itself undefined (division by zero on the selected branch) "
                      "is not a violation"],
         rule="per expression and explored path: z3 proves path condition => returned term == denotation; further "
